@@ -99,11 +99,7 @@ func (c *Ctx) vrtDir() string {
 
 // goEnv is the environment for builds of scratch modules and for the CLI.
 func (c *Ctx) goEnv(extra ...string) []string {
-	env := pipe.Env(extra...)
-	if gc := filepath.Join(c.Snap.Root, "gocache"); dirExists(gc) {
-		env = append(env, "GOCACHE="+gc)
-	}
-	return env
+	return pipe.Env(extra...)
 }
 
 func dirExists(p string) bool {
